@@ -246,6 +246,14 @@ def _dedup_arrays(tier, seed):
     for n in range(1, maxn + 1):
         for t in itertools.product((5, 1, 3), repeat=n):
             yield np.array(t)
+    # integers whose differences do not fit their own type
+    i64 = np.iinfo("i8")
+    yield np.array([i64.min, i64.max, 0, i64.max, i64.min], dtype="i8")
+    yield np.array([2 ** 62 + 5, -(2 ** 62 + 5), 2 ** 62 + 5], dtype="i8")
+    yield np.array([-100, 100, -100, 127, -128], dtype="i1")
+    yield np.array([-30000, 30000, 30000], dtype="i2")
+    yield np.array([-2000000000, 2000000000], dtype="i4")
+    yield np.array([0, 2 ** 64 - 1, 5, 0], dtype="u8")
     rng = random.Random(seed)
     for _ in range(40 if tier == "quick" else 1000):
         n = rng.randint(1, 14)
@@ -268,3 +276,52 @@ def _dom_unique(tier, seed):
 def _dom_unique_values(tier, seed):
     for a in _dedup_arrays(tier, seed):
         yield dict(args=[a, True])
+
+
+# ------------------------------------------------------------------------------------------------ call history (bounded)
+def match_history_statement(ref, probe, edits):
+    """the same array object matched again after the caller changed its contents in place: every call is sound and complete for
+    the contents it sees (nothing remembered from an earlier call may be reused)"""
+    import numpy as np
+    import esutil.numpy_util as nu
+    ref = ref.copy()
+    for step, e in enumerate(list(edits) + [None]):
+        m1, m2 = nu.match(ref, probe)
+        want = sorted((i, j) for j, p in enumerate(probe.tolist()) for i, r in enumerate(ref.tolist()) if r == p)
+        got = sorted(zip(np.asarray(m1).tolist(), np.asarray(m2).tolist()))
+        if got != want:
+            return "call %d on %r: pairs %r instead of %r" % (step, ref.tolist(), got, want)
+        if e is not None:
+            ref[:] = e          # in place: the same object with other contents
+    return True
+
+
+contract("esutil.numpy_util.match#history", params={}, assumed=True, runtime_name="esutil.numpy_util.match",
+         why_assumed="bounded statement oracle (labelled): the prover verifies one call; state kept between calls (a cache keyed by "
+                     "object identity) is outside a per-call contract",
+         rt_ensures={"every-call-is-sound-and-complete-for-the-contents-it-sees": "match_history_statement(ref, probe, edits) is True"},
+         props=["C06"])
+
+
+@domain("esutil.numpy_util.match#history")
+def _dom_match_history(tier, seed):
+    import random
+    import numpy as np
+    rng = random.Random(seed + 5)
+    for _ in range(6 if tier == "quick" else 100):
+        n = rng.randint(3, 9)
+        vals = rng.sample(range(-20, 40), n)
+        ref = np.array(vals)
+        edits = []
+        for _k in range(rng.randint(1, 3)):
+            kind = rng.choice(["shuffle", "sorted", "new"])
+            if kind == "shuffle":
+                e = list(vals)
+                rng.shuffle(e)
+            elif kind == "sorted":
+                e = sorted(vals)
+            else:
+                e = rng.sample(range(-20, 40), n)
+            edits.append(np.array(e))
+        probe = np.array([rng.choice(vals + [99, -99]) for _ in range(rng.randint(1, 8))])
+        yield dict(call=(lambda: None), args=[], ghost=dict(ref=ref, probe=probe, edits=edits), key="ref %r probe %r %d edits" % (vals, probe.tolist(), len(edits)))
